@@ -23,7 +23,7 @@ ASSUMPTIONS = ["equivalence is decided on three probe inputs (|0..0> and two ran
                "parameterised (non-Clifford) gates are outside the vocabulary and are not generated",
                "GED methods are only run on circuits with <= 7 nodes; their internal 10 s time-out is counted, not judged"]
 TIMEOUT = {"quick": 900, "thorough": 7200}
-PERTS = ["same", "copy", "swap_ct", "move_reg", "commute", "wrap", "unwrap", "identity", "exchange_regs", "flip_classical", "replace", "independent"]
+PERTS = ["same", "copy", "swap_ct", "move_reg", "commute", "wrap", "unwrap", "identity", "exchange_regs", "exchange_tail", "flip_classical", "replace", "independent"]
 
 
 def shards(tier, seed):
@@ -35,7 +35,7 @@ def shards(tier, seed):
 def floors(tier):
     f = {"compare:direct": 500, "compare:is_isomorphic": 500, "compare:true_answers": 300, "compare:false_answers": 300,
          "oracle:equivalent": 200, "oracle:inequivalent": 200, "lists:remove_redundant": 40, "lists:storage": 40, "lists:dropped": 30,
-         "compare:GED": 10}
+         "compare:GED": 10, "far_pairs": 60, "compare:GED_far_verdicts": 100}
     for p in PERTS:
         f["pert:" + p] = 15
     return f
@@ -139,6 +139,21 @@ def perturb(rng, ops, regs_by_type, kind):
         for d in ops:
             d["q"] = [b if tuple(x) == a else (a if tuple(x) == b else tuple(x)) for x in d["q"]]
         return ops
+    if kind == "exchange_tail":
+        # everything after a two-qubit gate on two registers of the same type is exchanged between those two registers
+        # (CNOT a,b; H a; P b  ->  CNOT a,b; P a; H b): the wires differ only in which role of the gate they left with
+        same_t = [i for i in two if ops[i]["q"][0][0] == ops[i]["q"][1][0] and i + 1 < len(ops)]
+        if not same_t:
+            return None
+        i = same_t[int(rng.integers(len(same_t)))]
+        a, b = tuple(ops[i]["q"][0]), tuple(ops[i]["q"][1])
+        if not any(any(tuple(x) in (a, b) for x in d["q"]) for d in ops[i + 1:]):
+            # nothing follows on either wire: put two different one-qubit gates there first
+            ops.insert(i + 1, {"kind": "H", "q": [a]})
+            ops.insert(i + 2, {"kind": "P", "q": [b]})
+        for d in ops[i + 1:]:
+            d["q"] = [b if tuple(x) == a else (a if tuple(x) == b else tuple(x)) for x in d["q"]]
+        return ops
     if kind == "replace" and ops:
         i = int(rng.integers(len(ops)))
         k = ops[i]["kind"]
@@ -239,10 +254,37 @@ def run_shard(spec, ctx):
     for i in range(spec["count"]):
         seedt = [spec["seed"], 15 if spec["kind"] == "pairs" else 151, spec["shard"], i]
         (check_pair if spec["kind"] == "pairs" else check_list)(seedt, ctx)
+        if spec["kind"] == "pairs" and i % 12 == 0:
+            check_far_pair([spec["seed"], 152, spec["shard"], i], ctx)
 
 
 def replay(case, ctx):
-    (check_pair if case["kind"] == "pair" else check_list)(case["seed"], ctx)
+    {"pair": check_pair, "far_pair": check_far_pair}.get(case["kind"], check_list)(case["seed"], ctx)
+
+
+def exchange_tail_pair(rng, ops, regs_by_type):
+    """two circuits that agree up to and including a two-qubit gate on two registers a, b of the same type and then apply
+    two different one-qubit gates the one way round (g1 on a, g2 on b) and the other (g2 on a, g1 on b), followed by the same
+    rest: they differ only in which role of the gate each wire left with"""
+    ops = copy.deepcopy(ops)
+    ts = [t for t in ("e", "p") if len(regs_by_type[t]) >= 2]
+    if not ts:
+        return None
+    two = [i for i, d in enumerate(ops) if d["kind"] in ("CNOT", "CZ") and d["q"][0][0] == d["q"][1][0]]
+    if two and rng.random() < 0.7:
+        i = two[int(rng.integers(len(two)))]
+    else:
+        t = ts[int(rng.integers(len(ts)))]
+        a, b = (regs_by_type[t][int(j)] for j in rng.choice(len(regs_by_type[t]), 2, replace=False))
+        i = int(rng.integers(len(ops) + 1))
+        ops.insert(i, {"kind": "CNOT", "q": [a, b]})
+    a, b = tuple(ops[i]["q"][0]), tuple(ops[i]["q"][1])
+    g1, g2 = (["H", "P", "X", "Pdag", "Y"][int(j)] for j in rng.choice(5, 2, replace=False))
+    keep = rng.random() < 0.5
+    rest = ops[i + 1:] if keep else [d for d in ops[i + 1:] if not any(tuple(x) in (a, b) for x in d["q"])]
+    o1 = ops[:i + 1] + [{"kind": g1, "q": [a]}, {"kind": g2, "q": [b]}] + copy.deepcopy(rest)
+    o2 = copy.deepcopy(ops[:i + 1]) + [{"kind": g2, "q": [a]}, {"kind": g1, "q": [b]}] + copy.deepcopy(rest)
+    return o1, o2
 
 
 def gen_base(rng):
@@ -260,6 +302,65 @@ def _txt(ops):
             (f"->c{d['c']}" if d.get("c") is not None else "") for d in ops]
 
 
+class _Deadline(Exception):
+    pass
+
+
+def _with_deadline(seconds, fn):
+    """run fn() under a wall-clock watchdog (SIGALRM; the workers are single-threaded). A firing watchdog is inconclusive,
+    never a verdict: graphiq's approximate GED search has no time budget of its own and can run for hours on distant circuits"""
+    import signal
+
+    def handler(sig, frm):
+        raise _Deadline()
+    old = signal.signal(signal.SIGALRM, handler)
+    signal.setitimer(signal.ITIMER_REAL, seconds)
+    try:
+        return fn()
+    finally:
+        signal.setitimer(signal.ITIMER_REAL, 0)
+        signal.signal(signal.SIGALRM, old)
+
+
+def check_far_pair(seedt, ctx):
+    """circuits on the same registers that are many edits apart (beyond the bound / budget the GED methods search within):
+    'no edit path found' must not come out as 'equal'"""
+    rng = np.random.default_rng(seedt)
+    while True:
+        n_e, n_p = int(rng.integers(0, 3)), int(rng.integers(0, 3))
+        if 2 <= n_e + n_p <= 4:
+            break
+    ops1 = [d for d in rand_ops(rng, n_e, n_p, 0, int(rng.integers(12, 22))) if d["kind"] not in ("MZ", "MR", "cCNOT", "cCZ")]
+    ops2 = [] if rng.random() < 0.5 else [d for d in rand_ops(rng, n_e, n_p, 0, int(rng.integers(1, 3))) if d["kind"] not in ("MZ", "MR", "cCNOT", "cCZ")]
+    prog1, c1 = build(n_e, n_p, 0, ops1)
+    prog2, c2 = build(n_e, n_p, 0, ops2)
+    orc = Oracle(rng, n_e, n_p, 0)
+    case = {"kind": "far_pair", "seed": seedt, "registers": [n_e, n_p, 0], "circuit1": _txt(ops1), "circuit2": _txt(ops2)}
+    same = orc.equivalent_up_to_renaming(ops1, ops2)
+    ctx.count("far_pairs")
+    for method in ("GED_full", "GED_adaptive", "GED_approximate"):
+        ctx.case((tuple(_txt(ops1)), tuple(_txt(ops2)), method, "far"), True, {"circuit1": _txt(ops1), "circuit2": _txt(ops2), "method": method} if ctx.evaluations % 300 == 0 else None)
+        import time as _time
+        t0 = _time.time()
+        try:
+            a = bool(_with_deadline(12.0, lambda: c1.compare(c2, method=method)))
+        except _Deadline:
+            ctx.count("compare:GED_watchdog_inconclusive")
+            continue
+        except StopIteration:
+            ctx.count("compare:GED_no_edit_path_within_bound")      # no verdict was given
+            continue
+        except Exception as e:
+            ctx.violation("compare_raises", case, {"method": method, "exception": f"{type(e).__name__}: {e}"[:300]}, key=f"compare_exc:{method}:{type(e).__name__}")
+            continue
+        if _time.time() - t0 > 4.0:
+            ctx.count("compare:GED_slow_inconclusive")
+            continue
+        ctx.count("compare:GED_far_verdicts")
+        if a and not same:
+            ctx.violation("reported_equal_but_inequivalent", case, {"method": method, "compare(c1,c2)": a, "operations_apart": len(ops1) - len(ops2)}, key=f"unsound:{method}:far")
+
+
 def check_pair(seedt, ctx):
     rng = np.random.default_rng(seedt)
     n_e, n_p, n_c, ops1 = gen_base(rng)
@@ -267,6 +368,13 @@ def check_pair(seedt, ctx):
     kind = PERTS[int(rng.integers(len(PERTS)))]
     if kind == "independent":
         ops2 = rand_ops(rng, n_e, n_p, n_c, int(rng.integers(1, 9)))
+    elif kind == "exchange_tail":
+        both = exchange_tail_pair(rng, ops1, regs_by_type)
+        if both is None:
+            kind = "same"
+            ops2 = copy.deepcopy(ops1)
+        else:
+            ops1, ops2 = both
     else:
         ops2 = perturb(rng, ops1, regs_by_type, kind)
         if ops2 is None:
@@ -290,8 +398,16 @@ def check_pair(seedt, ctx):
         try:
             import time as _time
             t0 = _time.time()
-            a12 = bool(c1.compare(c2, method=method))
-            a21 = bool(c2.compare(c1, method=method))
+            if method.startswith("GED"):
+                try:
+                    a12 = bool(_with_deadline(25.0, lambda: c1.compare(c2, method=method)))
+                    a21 = bool(_with_deadline(25.0, lambda: c2.compare(c1, method=method)))
+                except _Deadline:
+                    ctx.count("compare:GED_watchdog_inconclusive")
+                    continue
+            else:
+                a12 = bool(c1.compare(c2, method=method))
+                a21 = bool(c2.compare(c1, method=method))
             if method.startswith("GED") and _time.time() - t0 > 4.0:
                 # graphiq gives its exact GED search a 10 s wall-clock budget; near it the answer is load dependent
                 ctx.count("compare:GED_slow_inconclusive")
